@@ -512,6 +512,13 @@ p_uthread_local_free (PUThreadKey *key)
 	if (P_UNLIKELY (key == NULL))
 		return;
 
+	if (key->key != NULL) {
+		if (P_UNLIKELY (pthread_key_delete (*key->key) != 0))
+			P_ERROR ("PUThread::p_uthread_local_free: pthread_key_delete() failed");
+
+		p_free (key->key);
+	}
+
 	p_free (key);
 }
 
